@@ -6,7 +6,10 @@
 package c06
 
 import (
+	"fmt"
 	"os"
+	"strings"
+	"strconv"
 	"testing"
 
 	"pgregory.net/rapid"
@@ -37,7 +40,17 @@ func TestMain(m *testing.M) {
 	os.Exit(vlib.Main(m, rec))
 }
 
-func known(p gobatch.Program, got, want gobatch.Result) string { return "" }
+var devDump = os.Getenv("C06_DEV_DUMP") // development only: directory receiving every disagreement
+var devCount int
+
+func known(p gobatch.Program, got, want gobatch.Result) string {
+	if devDump != "" {
+		devCount++
+		os.WriteFile(fmt.Sprintf("%s/%s-%03d.go", devDump, os.Getenv("VERIF_SHARD"), devCount),
+			[]byte(string(p.Replay())+"\n/*\n"+gobatch.Diff(got, want)+"\n"+strings.Join(p.Tags, "\n")+"\n*/\n"), 0o644)
+	}
+	return ""
+}
 
 func genProgram(t *rapid.T, px string) gobatch.Program {
 	p := generate(t, px, rec.Known(f1), rec.Known(f2))
@@ -46,6 +59,9 @@ func genProgram(t *rapid.T, px string) gobatch.Program {
 
 // excluded shapes are switched off inside the generator; count them
 func countExcluded(p gobatch.Program) string {
+	if p.HasTag("excluded-shape:mutual-recursion-of-declared-functions") {
+		rec.Label("excluded:mutual recursion of declared functions needs a forward declaration (out-of-order declarations: C16/C17)")
+	}
 	if p.HasTag("excluded-shape:" + f1) {
 		rec.Excluded(f1)
 	}
@@ -56,12 +72,23 @@ func countExcluded(p gobatch.Program) string {
 }
 
 func TestCallsAndClosures(t *testing.T) {
+	n := rec.Scale(250, 2500)
+	if v, err := strconv.Atoi(os.Getenv("C06_DEV_N")); err == nil && v > 0 {
+		n = v // development only
+	}
 	gobatch.Run(t, gobatch.Config{
-		Rec: rec, Name: "c06", N: rec.Scale(250, 2500),
-		Gen: genProgram, Known: known, Skip: countExcluded,
+		Rec: rec, Name: "c06", N: n,
+		Gen: genProgram, Known: known, Skip: countExcluded, ShrinkSeconds: devShrink(),
 	})
 }
 
 func TestReplays(t *testing.T) {
 	rec.RunReplays(t, gobatch.Replayer(known))
+}
+
+func devShrink() int {
+	if devDump != "" {
+		return 1
+	}
+	return 0
 }
